@@ -1339,3 +1339,115 @@ func init() {
 			return obs
 		}})
 }
+
+// INPKG.shapes-agree — C17 ("multiple packages and files"): which package a
+// top-level form belongs to is decided statically by every tool that scans for
+// in-package; the evaluator accepts the package designator as a symbol or a
+// STRING.  A scanner that reads only one of the spellings files everything
+// after `(in-package "p")` under the previous package: private references
+// across files and `p:name` references stop matching their definitions.
+func init() {
+	register(&Rule{ID: "INPKG.shapes-agree", Floor: 2,
+		Doc: "every static reader of an in-package / use-package designator — minifier.packageName and astutil.PackageNameArg (which analysis and lint share) — tests for every argument type the in-package builtin accepts (today: symbol and string), directly or in a helper it calls",
+		Run: func(c *Ctx) []Obligation {
+			const rid = "INPKG.shapes-agree"
+			bfn, bfd, bpkg := c.LookupFunc("lisp.builtinInPackage")
+			if bfn == nil {
+				return []Obligation{anchorMissing(rid, "lisp.builtinInPackage")}
+			}
+			binfo := bpkg.TypesInfo
+			accepted := map[string]bool{}
+			// the refusal: `if a.Type != LSymbol && a.Type != LString { return env.Errorf(…) }`
+			ast.Inspect(bfd.Body, func(n ast.Node) bool {
+				is, ok := n.(*ast.IfStmt)
+				if !ok || len(accepted) > 0 || len(is.Body.List) == 0 {
+					return true
+				}
+				if _, isRet := is.Body.List[len(is.Body.List)-1].(*ast.ReturnStmt); !isRet {
+					return true
+				}
+				for _, a := range impliedAtoms(is.Cond, true) {
+					be, ok := ast.Unparen(a.E).(*ast.BinaryExpr)
+					if !ok {
+						continue
+					}
+					neq := be.Op == token.NEQ && a.Positive || be.Op == token.EQL && !a.Positive
+					if !neq {
+						continue
+					}
+					for _, side := range []ast.Expr{be.X, be.Y} {
+						if k, ok := identObjOrSel(binfo, side).(*types.Const); ok && strings.HasPrefix(k.Name(), "L") {
+							accepted[k.Name()] = true
+						}
+					}
+				}
+				return true
+			})
+			if len(accepted) < 2 {
+				return []Obligation{mkOb(c, rid, FuncUnit{bfn, bfd, bpkg}, "accepted designator types", bfd, Undecided, fmt.Sprintf("could not read the designator types builtinInPackage accepts (found %d)", len(accepted)), true)}
+			}
+			acc := sortedKeys(accepted)
+			var obs []Obligation
+			for _, name := range []string{"minifier.packageName", "astutil.PackageNameArg"} {
+				fn, fd, pkg := c.LookupFunc(name)
+				if fn == nil {
+					obs = append(obs, anchorMissing(rid, name))
+					continue
+				}
+				u := FuncUnit{fn, fd, pkg}
+				tested := c.typeConstsTested(u, 2)
+				var missing []string
+				for _, k := range acc {
+					if !tested[k] {
+						missing = append(missing, k)
+					}
+				}
+				if len(missing) == 0 {
+					obs = append(obs, mkOb(c, rid, u, "recognised designator types", fd, Proved, "tests for "+strings.Join(acc, ", "), true))
+				} else {
+					obs = append(obs, mkOb(c, rid, u, "recognised designator types", fd, Violated, "the in-package builtin accepts "+strings.Join(acc, ", ")+" but this reader never tests for "+strings.Join(missing, ", ")+": after (in-package \"p\") the tool keeps filing definitions and references under the previous package, so cross-file private references and p:name references no longer find what they name and the minified program fails with unbound symbol", true))
+				}
+			}
+			return obs
+		}})
+}
+
+// MINIFY.file-identity — C17 ("across all files of one minify session"): a
+// symbol's identity across files is its name plus the file, line and column
+// the scanner stamped on its definition.  The file component is whatever name
+// the scanner was given, so it must be the session's own key for the file —
+// the input's Path as supplied — and not something derived from it that two
+// inputs can share (a base name, a cleaned or relative path).
+func init() {
+	register(&Rule{ID: "MINIFY.file-identity", Floor: 1,
+		Doc: "in minifier.parseFile the file name handed to the scanner (the first argument of token.NewScanner / NewScannerString) is, directly, the Path field of the input being parsed: two different inputs never produce locations with the same file component, so cross-file references are rewritten to the name generated for the definition they actually resolve to, and the symbol map has one entry per definition",
+		Run: func(c *Ctx) []Obligation {
+			const rid = "MINIFY.file-identity"
+			fn, fd, pkg := c.LookupFunc("minifier.parseFile")
+			if fn == nil || fd.Type.Params == nil || len(fd.Type.Params.List) == 0 {
+				return []Obligation{anchorMissing(rid, "minifier.parseFile")}
+			}
+			u := FuncUnit{fn, fd, pkg}
+			info := pkg.TypesInfo
+			input := info.Defs[fd.Type.Params.List[0].Names[0]]
+			var obs []Obligation
+			ord := &ordinal{}
+			for _, ce := range callsIn(fd.Body, true) {
+				f := Callee(info, ce)
+				if f == nil || f.Pkg() == nil || rel(f.Pkg().Path()) != "parser/token" || !strings.HasPrefix(f.Name(), "NewScanner") || len(ce.Args) == 0 {
+					continue
+				}
+				construct := ord.next("scanner file name")
+				se, ok := ast.Unparen(ce.Args[0]).(*ast.SelectorExpr)
+				if ok && se.Sel.Name == "Path" && identObj(info, se.X) == input {
+					obs = append(obs, mkOb(c, rid, u, construct, ce, Proved, "the input's own Path", true))
+				} else {
+					obs = append(obs, mkOb(c, rid, u, construct, ce, Violated, "the scanner is named `"+types.ExprString(ce.Args[0])+"`, not the input's Path: two files of a session that share that name (alpha/util.lisp and beta/util.lisp) stamp identical locations, so a reference to one file's helper is rewritten to the name generated for the other's and the symbol map reports two names for one position", true))
+				}
+			}
+			if len(obs) == 0 {
+				obs = append(obs, mkOb(c, rid, u, "scanner file name", fd, Undecided, "no token.NewScanner call in parseFile", true))
+			}
+			return obs
+		}})
+}
